@@ -127,6 +127,7 @@ type unit struct {
 	nilZero bool     // `return nil, err` where a *T of a translated struct T is expected: the zero record (callers test the error)
 	outside bool     // see outside.go: package-level variables, byte buffers, literals of foreign types, endless loops
 	strList bool     // see strlist.go: []string literals, lists of strings held by the outside world, `for _, s := range` over both
+	zeroObj []string // outside units: types T whose `var x T` is a fresh object of the outside world ("zero:<T>"), carried as a token
 }
 
 type world struct {
@@ -325,6 +326,8 @@ type fnTr struct {
 
 	// strlist.go
 	rangeIDs map[token.Pos]int // range loops over string lists, numbered in order of appearance
+
+	breaks bool // outside.go: the endless loop being translated contains `break`: its results are inl state (break) / inr value (return)
 }
 
 func (f *fnTr) fresh(base string) string {
@@ -559,6 +562,8 @@ func (f *fnTr) expr(e ast.Expr, en env, k func(val, env) string) string {
 				return fmt.Sprintf("%s <- call_ext ext \"str.lit\"%%string [AStr %s] ;;\n%s", t, coqString(s), k(val{t, ty{k: kStrTok}}, en))
 			}
 			return k(val{coqString(s), ty{k: kStr}}, en)
+		case token.CHAR:
+			return k(f.charLit(x), en)
 		}
 		fail("literal %s", x.Value)
 	case *ast.Ident:
@@ -646,6 +651,9 @@ func (f *fnTr) expr(e ast.Expr, en env, k func(val, env) string) string {
 		return f.expr(x.X, en, func(l val, en env) string {
 			if code, ok := f.strListIndex(x, l, en, k); ok {
 				return code
+			}
+			if l.t.k == kTok && f.u.outside {
+				return f.indexTok(x, l, en, k)
 			}
 			if l.t.k != kHList {
 				fail("indexing something that is not a frame slice: %s", exprString(x))
@@ -1006,6 +1014,11 @@ func (f *fnTr) call(c *ast.CallExpr, en env, k func(val, env) string) string {
 						})
 					}
 				}
+				if len(c.Args) == 1 && f.u.outside {
+					if t := f.w.goType(c.Args[0]); t.k == kTok {
+						return f.makeTok0(c, en, k)
+					}
+				}
 				return k(val{"tt", ty{k: kUnknown}}, en)
 			case "len":
 				if code, ok := f.pixLen(c, en, k); ok {
@@ -1306,6 +1319,9 @@ func (f *fnTr) finishReturn(v string, en env, defers []deferred) string {
 				r = "(" + f.recvCoq(en) + ", " + v + ")"
 			}
 			if len(f.loops) > 0 {
+				if f.breaks {
+					return "ret (LRet (inr " + r + "))"
+				}
 				return "ret (LRet " + r + ")"
 			}
 			if f.fuel {
@@ -1464,6 +1480,9 @@ func (f *fnTr) block(items []item, en env, defers []deferred) string {
 		if vs.Type != nil {
 			t = f.w.goType(vs.Type)
 		}
+		if vs.Type != nil && f.u.outside && contains(f.u.zeroObj, exprString(vs.Type)) {
+			return f.zeroObjDecl(name, vs.Type, en, func(en env) string { return f.block(rest, en, defers) })
+		}
 		if t.k == kUnknown {
 			return f.block(rest, en.bind(binding{goName: name.Name, coq: f.declName(name), t: ty{k: kUnknown}}), defers)
 		}
@@ -1556,7 +1575,7 @@ func terminates(l []ast.Stmt) bool {
 	case *ast.ReturnStmt:
 		return true
 	case *ast.BranchStmt:
-		return x.Tok == token.CONTINUE && x.Label == nil // leaves the block (only translated inside endless loops)
+		return (x.Tok == token.CONTINUE || x.Tok == token.BREAK) && x.Label == nil // leaves the block (only translated inside endless loops)
 	case *ast.BlockStmt:
 		return terminates(x.List)
 	case *ast.IfStmt:
@@ -1806,7 +1825,7 @@ func (f *fnTr) assign(s *ast.AssignStmt, rest []item, en env, defers []deferred)
 				if call == nil {
 					fail("tuple assignment from %s", exprString(s.Rhs[0]))
 				}
-				base := f.path(call.Fun)
+				base := f.multiBase(call, en)
 				code := ""
 				for i, l := range s.Lhs {
 					id, ok := l.(*ast.Ident)
@@ -2523,6 +2542,10 @@ var fnUnits = []*unit{
 	{name: "FileCleanup", dir: "cmd/thermal-recorder", files: []string{"cptvfilerecorder.go", "main.go"},
 		funcs: []string{"deleteTempFiles", "deleteExcessRecordings"}, skip: map[string]bool{},
 		strTok: true, outside: true, strList: true},
+	{name: "HeaderReader", dir: "headers", files: []string{"headerinfo.go", "headers.go"}, structs: []string{"HeaderInfo"},
+		funcs: []string{"ReadHeaderInfo", "toInt", "toStr"}, skip: map[string]bool{},
+		opaque:  []string{"*bufio.Reader", "bytes.Buffer", "interface{}", "map[string]interface{}"},
+		zeroObj: []string{"bytes.Buffer"}, strTok: true, nilZero: true, outside: true},
 }
 
 // ---------------------------------------------------------------------------------------
